@@ -207,16 +207,44 @@ fn case_seek_storm(out: &mut CaseOut, seed: u64, idx: u64) {
         return;
     }
     let pool = gen::key_pool(&mut rng, KeyFamily::Ascii, 40);
-    // layered shape: each flush covers a random sub-range, so files end up on levels 0..2 with
-    // nested / partially overlapping user-key ranges
-    let layers = rng.range(3, 6);
+    // layered shape: every flush covers a sub-range of the pool with gaps (so that lookups of the
+    // missing keys consult a second, deeper file). Templates: nested ranges; a narrow deep file at
+    // one edge under a wide middle file under a narrow top file elsewhere; random ranges.
+    let n = pool.len();
+    let template = [0u64, 1, 1, 2][(idx / 4 % 4) as usize];
+    let ranges: Vec<(usize, usize, usize)> = match template {
+        0 => {
+            let mut v = vec![(0, n - 1, 1)];
+            let (mut lo, mut hi) = (0usize, n - 1);
+            for _ in 0..rng.range(2, 4) {
+                lo += rng.range(1, 6) as usize;
+                hi = hi.saturating_sub(rng.range(1, 6) as usize);
+                if lo + 2 >= hi {
+                    break;
+                }
+                v.push((lo, hi, rng.range(2, 3) as usize));
+            }
+            v
+        }
+        1 => {
+            // the top file has gaps too, so that it is charged (and usually runs out of seeks
+            // before the middle file, whose misses only reach the deep file near the edge)
+            let edge = rng.range(2, 5) as usize;
+            let top_lo = rng.range(edge as u64 + 6, (n - 12) as u64) as usize;
+            vec![(0, edge, 1), (1, n - 2, 2), (top_lo, top_lo + rng.range(5, 9) as usize, rng.range(2, 3) as usize)]
+        }
+        _ => (0..rng.range(3, 6))
+            .map(|_| {
+                let a = rng.usize_below(n);
+                let b = rng.usize_below(n);
+                (a.min(b), a.max(b), rng.range(1, 3) as usize)
+            })
+            .collect(),
+    };
+    let layers = ranges.len();
     let mut counter = 0u64;
-    for _ in 0..layers {
-        let a = rng.usize_below(pool.len());
-        let b = rng.usize_below(pool.len());
-        let (lo, hi) = if a <= b { (a, b) } else { (b, a) };
-        let step = rng.range(1, 3) as usize;
-        for k in pool[lo..=hi].iter().step_by(step) {
+    for (lo, hi, step) in &ranges {
+        for k in pool[*lo..=*hi].iter().step_by(*step) {
             counter += 1;
             if sess.put(k, format!("v{counter}").as_bytes()).is_err() {
                 out.inconclusive("degenerate: write refused");
@@ -250,11 +278,12 @@ fn case_seek_storm(out: &mut CaseOut, seed: u64, idx: u64) {
         if arrived {
             windows += 1;
             // the candidate is pending and the worker is parked: keep charging seeks
-            for _ in 0..rng.range(60, 160) {
-                for k in &pool {
-                    let _ = sess.get(k);
-                    gets += 1;
-                }
+            // random order and a random stopping point: which file was charged last must not
+            // depend on the order of the pool
+            for _ in 0..rng.range(110 * pool.len() as u64, 220 * pool.len() as u64) {
+                let k = rng.pick(&pool[..]);
+                let _ = sess.get(k);
+                gets += 1;
             }
         }
         d.release(gate);
